@@ -137,18 +137,24 @@ Proof.
   apply dm_sel. vm_compute. left. reflexivity.
 Qed.
 
-(** INSERT .. SELECT on the bulk-transfer path: rows are validated one by one against the growing
-    table, so a self-referencing target accepts a row that references an earlier row of the same
-    statement (INSERT VALUES refuses it) -- still outside every known class *)
+(** INSERT .. SELECT on the bulk-transfer path: every row is validated against the table as it is
+    BEFORE the statement (like INSERT VALUES), then all rows are inserted; a row that references
+    another row of the same statement is refused and nothing is inserted *)
 Definition ex_bulk_db : db :=
   [selfref ANoAction ANoAction []; mkTable 1 [colK; colN] (Some [0]) [] [[v 1; None]; [v 2; v 1]; [v 3; v 2]]].
+Definition ex_bulk_db2 : db :=
+  [selfref ANoAction ANoAction [[v 1; None]]; mkTable 1 [colK; colN] (Some [0]) [] [[v 2; v 1]; [v 3; v 1]]].
 
 Example ex_insert_select :
   inv ex_bulk_db /\ RI ex_bulk_db
-  /\ known_class [0; 1] (SInsertSelect 0 1 true []) ex_bulk_db = false
-  /\ step_res [0; 1] ex_bulk_db (SInsertSelect 0 1 true []) = ROk 3
-  /\ step_res [0; 1] ex_bulk_db (SInsert 0 [[v 1; None]; [v 2; v 1]; [v 3; v 2]]) = RErr EConstraint.
+  /\ step_res [0; 1] ex_bulk_db (SInsertSelect 0 1 true []) = RErr EConstraint
+  /\ step_db [0; 1] ex_bulk_db (SInsertSelect 0 1 true []) = ex_bulk_db
+  /\ inv ex_bulk_db2 /\ RI ex_bulk_db2
+  /\ known_class [0; 1] (SInsertSelect 0 1 true []) ex_bulk_db2 = false
+  /\ step_res [0; 1] ex_bulk_db2 (SInsertSelect 0 1 true []) = ROk 2.
 Proof.
   split; [apply inv_b_inv; vm_compute; reflexivity|]. split; [apply ri_exact_b_RI; vm_compute; reflexivity|].
-  vm_compute. repeat split; reflexivity.
+  split; [vm_compute; reflexivity|]. split; [vm_compute; reflexivity|].
+  split; [apply inv_b_inv; vm_compute; reflexivity|]. split; [apply ri_exact_b_RI; vm_compute; reflexivity|].
+  vm_compute. split; reflexivity.
 Qed.
